@@ -40,6 +40,22 @@ CLAIMED = [
     seq("C20", "discarded() monotonicity, discard_freelist accounting, too-small and Freelist::None releases evaluated per transition/event.", "6 C20"),
 ]
 
+SYNC_NOTE = ("Trusted: TLC; the hand-written ArenaSync micro-op table (every access of every replayed schedule is matched against it by "
+             "TraceSyncImpl: kind, location, operands, orderings, value read, CAS outcome); interleaving semantics at the granularity of the "
+             "crate's atomic accesses (weak-memory-only behaviours not enumerated); small scenarios (2 threads x <=5 ops in the quick tier) "
+             "from setup states produced by the real code, plus seeded random programs of 2-4 threads judged at property level only.")
+SYNC_TECH = "TLA+ micro-op spec (ArenaSync) model-checked with TLC (safety + liveness) + controlled-scheduler replay of TLC schedules/counterexamples + TLC trace validation"
+CLAIMED += [
+    dict(property_id="C02", engine="sync", technique=SYNC_TECH, design_ref="6 C02", note=SYNC_NOTE,
+         text="Every interleaving of the scenario programs is explored by TLC on the byte-exact micro-op model (LiveDisjoint, LiveInBounds, LiveIntact, "
+              "NoOutOfBounds); TLC schedules and counterexamples are forced on the real sync::Arena by a controlled scheduler and every call/return "
+              "is judged by TraceSyncProp, every atomic access matched against the model by TraceSyncImpl."),
+    dict(property_id="C07", engine="sync", technique=SYNC_TECH, design_ref="6 C07", note=SYNC_NOTE,
+         text="Termination checked by TLC under weak fairness per thread; every lasso/stuttering counterexample is replayed on the real code where a "
+              "fairness-aware spin detector records non-termination; root-cause signatures separate the two listed findings from any other "
+              "non-termination, which is reported as a violation."),
+]
+
 NOT_YET = "check not built yet in this round (construction in progress; see DESIGN.md section 11)"
 
 
@@ -72,7 +88,9 @@ def main():
             "add_only": True,
         },
         "engines": [
-            {"name": "seq", "path": "lib/eng_seq.py", "serves_properties": sorted(p for p in claimed_ids if True),
+            {"name": "sync", "path": "lib/eng_sync.py", "serves_properties": ["C02", "C07"],
+             "kind_free_text": "ArenaSync.tla (one action per atomic access of sync.rs, byte-exact memory) + MCSync; harness/src/conc.rs controlled scheduler; TraceSyncProp / TraceSyncImpl"},
+            {"name": "seq", "path": "lib/eng_seq.py", "serves_properties": sorted(c["property_id"] for c in CLAIMED if c["engine"] == "seq"),
              "kind_free_text": "ArenaSeq.tla (implementation-level sequential spec) + ArenaProps.tla (property predicates) model-checked by TLC (MCSeq); "
                                "harness/src/seq.rs replays TLC-generated and random drivers on real sync/unsync arenas; TraceSeqProp (verdict) and TraceSeqImpl (drift) validate the traces"},
         ],
